@@ -174,8 +174,8 @@ let () =
       | ["ranges"; start; stop; workers] ->
         let rs = loopaccum_ranges (nat_of_int (int_of_string start)) (nat_of_int (int_of_string stop)) (nat_of_int (int_of_string workers)) in
         print_string "g"; List.iter (fun (a, b) -> Printf.printf " %d:%d" (int_of_nat a) (int_of_nat b)) rs; print_newline ()
-      | [("sort" | "sortold") as cmd; which; pat; n; seed; p1; p2; fuel; wfuel] ->
-        let old = (cmd = "sortold") in
+      | [("sort" | "sortold" | "sortnostall") as cmd; which; pat; n; seed; p1; p2; fuel; wfuel] ->
+        let variant = (match cmd with "sortold" -> 0 | "sortnostall" -> 1 | _ -> 2) in
         let n = int_of_string n and pat = int_of_string pat in
         let ty = if which = "aligned" then 'u' else 'd' in
         let arr = gen ty pat n (Int64.of_string seed) in
@@ -184,9 +184,9 @@ let () =
         let res =
           match which with
           | "merge" -> Some (mergesort leb oob (base_sort ty) a0 (n_of_int n))
-          | "qt" -> (if old then qsort_inner_old else qsort_inner) leb oob (n_of_int n) (base_sort ty) (qt_params (n_of_int (int_of_string p1)))
+          | "qt" -> (match variant with 0 -> qsort_inner_old | 1 -> qsort_inner_nostall | _ -> qsort_inner) leb oob (n_of_int n) (base_sort ty) (qt_params (n_of_int (int_of_string p1)))
                       (nat_of_int (int_of_string fuel)) (nat_of_int (int_of_string wfuel)) a0 N0 (n_of_int n)
-          | _ -> (if old then qsort_inner_old else qsort_inner) leb oob (n_of_int n) (base_sort ty) (qutil_params (n_of_int (int_of_string p1)) (n_of_int (int_of_string p2)))
+          | _ -> (match variant with 0 -> qsort_inner_old | 1 -> qsort_inner_nostall | _ -> qsort_inner) leb oob (n_of_int n) (base_sort ty) (qutil_params (n_of_int (int_of_string p1)) (n_of_int (int_of_string p2)))
                    (nat_of_int (int_of_string fuel)) (nat_of_int (int_of_string wfuel)) a0 N0 (n_of_int n) in
         (match res with
          | None -> print_endline "s outoffuel"
